@@ -73,6 +73,7 @@ class VC:
         self.pc_terms = []
         self.interp = I.Interp(self)
         self.mode = 'real'
+        self.foralls = []
         CTX.sign_oracle = self._sign_oracle
         self.path_notes = []
 
@@ -291,6 +292,16 @@ class VC:
             pass
         return out
 
+    def assume_forall(self, gen):
+        """Universally quantified precondition  forall k. gen(k).  It is instantiated (soundly) at 0 and at
+        every fresh index symbol the interpreter later introduces for a loop or comprehension."""
+        self.foralls.append(gen)
+        self.assume(gen(0))
+
+    def instantiate(self, k):
+        for g in self.foralls:
+            self.assume(g(k))
+
     def lemma(self, name, stmt):
         """Ghost lemma: proved as its own obligation, then available as a fact (prompting the solver)."""
         ok = self.ensure(name, stmt, kind='lemma')
@@ -313,6 +324,8 @@ class VC:
             v = self.interp.call_key(key, *args, **kwargs)
             return Outcome('return', v)
         except PyRaise as e:
+            if DEBUG:
+                print(f'  (program raised {e.exc_type}: {e.msg[:120]})')
             return Outcome('raise', None, e.exc_type, e.msg)
 
     def run(self, thunk):
